@@ -100,7 +100,8 @@ func New(o Options) (*World, error) {
 	cfg.SYSTEM_SETTINGS.RetryAttempts = o.Attempts
 	cfg.SYSTEM_SETTINGS.RetryTimeoutS = 0
 	cfg.HTTP_SETTINGS.InputBufferMB = 200
-	cfg.FingerPrintType = 1 // FINGERPRINT_CityHash, the default
+	cfg.FingerPrintType = 1                         // FINGERPRINT_CityHash, the default
+	cfg.SYSTEM_SETTINGS.MetricsMaxSamples = 5000000 // the default; 0 makes every PromQL evaluation fail
 	cc := &clconfig.ClokiConfig{Setting: &cfg}
 	w.Cfg = cc
 	wconfig.Cloki = cc
